@@ -216,27 +216,31 @@ PctCmps(P) == IF "CMP" \in P.kinds THEN P.cmps \cap {PctOp} ELSE {}
 RelCmps(P) == IF "CMP" \in P.kinds THEN P.cmps \ {PctOp} ELSE {}
 OpsA2(P)   == {<<k, 0>> : k \in P.kinds \cap Arith} \cup {<<"CMP", c>> : c \in PctCmps(P)}
 
-RECURSIVE TA(_, _), TL(_, _), Sat(_, _, _)
-\* the trees with n operator nodes that may stand where a value ("A") / a logical or a value ("L") is wanted
-Sat(n, want, P) == IF want = "A" /\ P.typed THEN TA(n, P) ELSE TA(n, P) \cup TL(n, P)
+\* the trees with exactly k operator nodes, by type, from those with fewer (tab[i + 1] = level i).
+\* (built bottom-up as a table: a plain recursive definition is re-evaluated exponentially often)
+LevelOf(k, tab, P) ==
+    LET A(i)  == tab[i + 1].a
+        L(i)  == tab[i + 1].l
+        SA(i) == IF P.typed THEN A(i) ELSE A(i) \cup L(i)      \* where a value is wanted
+        SL(i) == A(i) \cup L(i)                                \* where a logical value or a value is wanted
+    IN  IF k = 0 THEN [a |-> P.leaves, l |-> {}]
+        ELSE [a |-> {<<"NEG", 0, x>> : x \in IF "NEG" \in P.kinds THEN SA(k - 1) ELSE {}}
+                    \cup {<<"PAREN", 0, x>> : x \in IF "PAREN" \in P.kinds THEN A(k - 1) ELSE {}}
+                    \cup UNION {{<<o[1], o[2], x, y>> : o \in OpsA2(P), x \in SA(i), y \in SA(k - 1 - i)}
+                                   : i \in 0..(k - 1)},
+              l |-> {<<"NOT", s, x>> : s \in IF "NOT" \in P.kinds THEN P.sps ELSE {}, x \in SL(k - 1)}
+                    \cup {<<"PAREN", 0, x>> : x \in IF "PAREN" \in P.kinds THEN L(k - 1) ELSE {}}
+                    \cup UNION {{<<o, s, x, y>> : o \in P.kinds \cap Logic, s \in P.sps, x \in SL(i), y \in SL(k - 1 - i)}
+                                   : i \in 0..(k - 1)}
+                    \cup UNION {{<<"CMP", c, x, y>> : c \in RelCmps(P), x \in SA(i), y \in SA(k - 1 - i)}
+                                   : i \in 0..(k - 1)}]
 
-TA(n, P) ==
-    IF n = 0 THEN P.leaves
-    ELSE {<<"NEG", 0, x>> : x \in IF "NEG" \in P.kinds THEN Sat(n - 1, "A", P) ELSE {}}
-         \cup {<<"PAREN", 0, x>> : x \in IF "PAREN" \in P.kinds THEN TA(n - 1, P) ELSE {}}
-         \cup UNION {{<<o[1], o[2], l, r>> : o \in OpsA2(P), l \in Sat(i, "A", P), r \in Sat(n - 1 - i, "A", P)}
-                        : i \in 0..(n - 1)}
+RECURSIVE BuildTab(_, _, _)
+BuildTab(n, tab, P) ==                   \* (a bound variable holds a value: every level is computed once)
+    IF Len(tab) > n THEN tab
+    ELSE CHOOSE r \in {BuildTab(n, Append(tab, lv), P) : lv \in {LevelOf(Len(tab), tab, P)}} : TRUE
 
-TL(n, P) ==
-    IF n = 0 THEN {}
-    ELSE {<<"NOT", s, x>> : s \in IF "NOT" \in P.kinds THEN P.sps ELSE {}, x \in Sat(n - 1, "L", P)}
-         \cup {<<"PAREN", 0, x>> : x \in IF "PAREN" \in P.kinds THEN TL(n - 1, P) ELSE {}}
-         \cup UNION {{<<k, s, l, r>> : k \in P.kinds \cap Logic, s \in P.sps,
-                                        l \in Sat(i, "L", P), r \in Sat(n - 1 - i, "L", P)} : i \in 0..(n - 1)}
-         \cup UNION {{<<"CMP", c, l, r>> : c \in RelCmps(P), l \in Sat(i, "A", P), r \in Sat(n - 1 - i, "A", P)}
-                        : i \in 0..(n - 1)}
-
-TreesUpTo(n, P) == UNION {TA(i, P) \cup TL(i, P) : i \in 0..n}
+TreesUpTo(n, P) == UNION {UNION {t[i].a \cup t[i].l : i \in 1..(n + 1)} : t \in {BuildTab(n, <<>>, P)}}
 
 LeavesM == {<<"ATOM", 1>>} \cup (IF WithFunc THEN {<<"FUNC", 1>>} ELSE {})
 ParamsM == [kinds |-> KindsM, cmps |-> CmpOpsM, sps |-> LogSpM, leaves |-> LeavesM, typed |-> TypedM]
@@ -293,8 +297,9 @@ StableLead    == Stable \/ (Lead("stable") /\ FALSE)
 (* (G) emission: shapes (exhaustive) and walks (simulation)                *)
 
 \* well-typed shapes; spellings and operands still open (0), except % which is typed on its own
-Shapes == TreesUpTo(MaxOps, [kinds |-> Unary \cup Binary, cmps |-> {0, PctOp}, sps |-> {0},
-                             leaves |-> {<<"ATOM", 0>>}, typed |-> TRUE])
+Shapes == IF RootKindsS = {} THEN {}       \* (not a shape run: nothing to compute)
+          ELSE TreesUpTo(MaxOps, [kinds |-> Unary \cup Binary, cmps |-> {0, PctOp}, sps |-> {0},
+                                  leaves |-> {<<"ATOM", 0>>}, typed |-> TRUE])
 RelOps(S) == S \ {PctOp}
 
 \* every spelling of the operator at the root
